@@ -120,6 +120,10 @@ func prePost(cmd string) (string, string) {
 		return "FETCH 1 BODY.PEEK[HEADER.FIELDS (", ")]"
 	case "APPEND":
 		return "APPEND m ", ""
+	case "APPEND-fail":
+		return "APPEND mfail ", ""
+	case "APPEND-panic":
+		return "APPEND mpanic ", ""
 	case "NOOP-lit":
 		return "NOOP ", ""
 	case "XUNK-lit":
@@ -416,7 +420,8 @@ func (p *peer) finish(u unit, payload []byte, res *result) {
 		}
 	}
 	// a well-formed command whose argument did not arrive intact is not "payload"
-	if res.Obs.Call == "plain" && u.Cmd != "IDLE" && u.Cmd != "NOOP" && u.Cmd != "AUTH-CANCEL" && u.Cmd != "AUTH-FINAL" {
+	if res.Obs.Call == "plain" && u.Cmd != "IDLE" && u.Cmd != "NOOP" && u.Cmd != "AUTH-CANCEL" && u.Cmd != "AUTH-FINAL" &&
+		u.Cmd != "APPEND-fail" && u.Cmd != "APPEND-panic" {
 		res.Obs.Call = "altered"
 	}
 }
@@ -634,7 +639,8 @@ func main() {
 		enc := json.NewEncoder(f)
 		var emu sync.Mutex
 		rng := rand.New(rand.NewSource(*seed))
-		cmds := []string{"LOGIN-user", "LOGIN-pass", "CREATE", "RENAME-new", "LIST-pat", "SEARCH-str", "FETCH-hdr", "APPEND", "NOOP-lit", "XUNK-lit", "NOOP", "AUTH-CANCEL", "IDLE", "AUTH-FINAL"}
+		cmds := []string{"LOGIN-user", "LOGIN-pass", "CREATE", "RENAME-new", "LIST-pat", "SEARCH-str", "FETCH-hdr", "APPEND", "NOOP-lit", "XUNK-lit", "NOOP", "AUTH-CANCEL", "IDLE", "AUTH-FINAL",
+			"APPEND-fail", "APPEND-panic"}
 		nUnits := 0
 		for t := 0; t < *traces; t++ {
 			cs := &caseT{Start: startT{LitPlus: rng.Intn(2) == 0, State: []string{"notauth", "auth"}[rng.Intn(2)]}}
@@ -654,8 +660,14 @@ func main() {
 						u.Size = "small"
 					}
 					u.Payload = []string{"benign", "smuggle"}[rng.Intn(2)]
-					if u.Form == "quoted" && (u.Cmd == "APPEND" || u.Cmd == "NOOP-lit" || u.Cmd == "XUNK-lit") {
+					if u.Form == "quoted" && (strings.HasPrefix(u.Cmd, "APPEND") || u.Cmd == "NOOP-lit" || u.Cmd == "XUNK-lit") {
 						u.Form = "sync"
+					}
+					if u.Cmd == "APPEND-fail" || u.Cmd == "APPEND-panic" {
+						u.Payload = "smuggle"
+						if u.Size == "huge" {
+							u.Size = "big"
+						}
 					}
 					if u.Form == "quoted" {
 						u.Size, u.Payload = "small", "benign"
